@@ -139,6 +139,12 @@ pub fn gen_char(t: &mut Tape) -> char {
 fn gen_len(t: &mut Tape, fuel: &mut Fuel) -> usize {
     let max = fuel.max_len.min(fuel.elems);
     let k = t.below(8);
+    // with a big budget, aim at the neighbourhood of u8::MAX (length-type and offset-type limits)
+    if max >= 257 && k >= 5 {
+        let n = 247 + t.below(11);
+        fuel.elems -= n;
+        return n;
+    }
     let n = match k {
         0 => 0,
         1 => 1,
